@@ -215,12 +215,15 @@ def gen_asm_obj(r, k, nfun, all_names, locals_):
         nm = f"a{k}_{j}"
         names.append(nm)
         local = nm in locals_
-        empty = r.chance(1, 12)
+        empty = r.chance(1, 8)
         out.append(f'    .section .text.{nm},"ax",@progbits\n')
         if not local:
             out.append(f"    .globl {nm}\n")
         out.append(f"    .type {nm}, @function\n{nm}:\n")
         if empty:
+            if r.chance(1, 2):
+                # zero-size section that still carries an FDE (what compilers emit for a function that is only __builtin_unreachable())
+                out.append("    .cfi_startproc\n    .cfi_endproc\n")
             out.append(f"    .size {nm}, 0\n")
             continue
         out.append("    .cfi_startproc\n")
